@@ -22,7 +22,7 @@ def gen_rfc2822_consts():
     out = HEADER % 'src/format/parse.rs (parse_rfc2822), src/format/formatting.rs (write_rfc2822), src/format/scan.rs (comment_2822)'
 
     b = fn_body(parse, 'parse_rfc2822')
-    calls = re.findall(r'scan::number\(\s*(s_?)\s*,\s*(\d+)\s*,\s*(usize::MAX|\d+)\s*\)', b)
+    calls = re.findall(r'scan::number\(\s*(s_?(?:\.trim_start\(\))?)\s*,\s*(\d+)\s*,\s*(usize::MAX|\d+)\s*\)', b)
     if len(calls) != 5:
         raise TranslateError('parse_rfc2822: expected 5 scan::number calls, got %r' % (calls,))
     names = ('DAY', 'YEAR', 'HOUR', 'MINUTE', 'SECOND')
@@ -30,8 +30,10 @@ def gen_rfc2822_consts():
     for nm, (_, lo, hi) in zip(names, calls):
         out += defn('R2_%s_MIN' % nm, int(lo))
         out += defn('R2_%s_MAX' % nm, 2**64 - 1 if hi == 'usize::MAX' else int(hi))
-    if calls[4][0] != 's_':
-        raise TranslateError('parse_rfc2822: the seconds are expected to be read from s_ (after the colon)')
+    if calls[4][0] not in ('s_', 's_.trim_start()') or any(c[0] != 's' for c in calls[:4]):
+        raise TranslateError('parse_rfc2822: unexpected scan::number arguments %r' % (calls,))
+    out += '(* the seconds are read from s_ (what follows the second colon): 1 = after trim_start() *)\n'
+    out += defn('R2_SECOND_TRIM', 1 if calls[4][0] == 's_.trim_start()' else 0)
     # the year-length rule
     m = re.search(r'match\s*\(yearlen,\s*year\)\s*\{(.*?)\n\s*\}\s*\n\s*parsed\.set_year', b, re.S)
     if not m:
